@@ -48,12 +48,12 @@ def run(chk, repo):
     chk.attempt(_t4_pending[0], chk, repo, L, _t4_pending[1], covered_by="adapter_values", rules=("C03-T4",))
     from ..shapes_rules import link_tables
     link_tables(chk, repo, L, "C03")
-    from .common_rules import record_type_dispatch, to_dict_contract, variable_conversion
+    from .common_rules import record_type_dispatch, to_dict_contract, to_dict_rules, variable_conversion
     chk.rule("C03-T6", "record-type dispatch, to_dict contract, Variable conversion", 5)
     from .common_rules import record_dispatch_eval, variable_conversion_eval
     chk.attempt(record_dispatch_eval, chk, repo, "C03-T6")
     chk.attempt(record_type_dispatch, chk, repo, "C03-T6", covered_by="record_dispatch_eval")
-    chk.attempt(to_dict_contract, chk, repo, "C03-T6")
+    to_dict_rules(chk, repo, "C03-T6")
     chk.attempt(variable_conversion_eval, chk, repo, "C03-T6")
     chk.attempt(variable_conversion, chk, repo, "C03-T6", covered_by="variable_conversion_eval")
     # T5: header attributes present exactly when the field is non-blank (sentinel agreement, shared with C20-P2/P4)
